@@ -2,6 +2,33 @@
 """Markdown table of the vetted seeded changes (seeded/*/meta.json) for DESIGN.md section 0.7."""
 import glob, json, os, re
 ROOT = os.path.dirname(os.path.dirname(os.path.abspath(__file__)))
+# seeds that slipped through when first run and are caught now only because the machinery was extended AFTER looking at them
+EXTENDED = {
+    'C01-4': "bounded grammar got a leaf containing '?'",
+    'C03-3': 'writes through a live view became a frame obligation (also across loop cuts)',
+    'C05-2': "C05's check now includes the handler-resolution contracts of C13",
+    'C08-2': "C08's check now includes _handle_reconnect",
+    'C10-2': "connect() body put under contract, clause 'reconnection effort left alone'",
+    'C10-4': 'connect() body put under contract',
+    'C11-3': "C11's check now includes BaseManager.connect",
+    'C12-1': "C12's check now includes is_connected",
+    'C12-4': 'catch-all raise cases stopped accepting implicit exceptions',
+    'C14-4': "clause 'client told before its disconnect handler runs' (@C14)",
+    'C15-1': 'forbidden-outcome obligations are part of every baseline',
+    'C15-3': 'forbidden-outcome obligations are part of every baseline',
+    'C15-4': "C15's check now includes _return_callback",
+    'C16-1': 'baseline obligations are never skipped after other failures',
+    'C16-3': 'baseline obligations are never skipped after other failures',
+    'C16-4': 'dict() builtin modelled (a copy is not the object)',
+    'C17-3': "clause 'positional parameters in the order of the underlying method'",
+    'C17-4': '_set_server/_set_client put under contract',
+    'C18-4': 'the wrapper contract got symbolic extra keyword arguments',
+    'C20-4': 'gate shape obligations g0',
+}
+try:
+    FIRST = json.load(open(os.path.join(ROOT, 'seeded', 'vet_run_at_4528970.json')))
+except Exception:
+    FIRST = {}
 rows = []
 for f in sorted(glob.glob(os.path.join(ROOT, 'seeded', '*', 'meta.json'))):
     m = json.load(open(f))
@@ -26,10 +53,15 @@ for f in sorted(glob.glob(os.path.join(ROOT, 'seeded', '*', 'meta.json'))):
         res = 'undecided (exit 2): function left the subset'
     else:
         res = 'NOT caught (exit %s)' % ','.join(map(str, codes))
-    rows.append((m['id'], title[:110], ' '.join(m.get('checks_run', [])), res, first, 'ported' if m.get('ported') else ''))
-print('| seed | change | check run | result | first failed obligation |')
-print('|------|--------|-----------|--------|-------------------------|')
+    f0 = FIRST.get(m['id'])
+    first_run = '' if f0 is None else ('caught' if f0['caught'] else 'missed (exit %s)' % ','.join(map(str, f0['exit_codes'])))
+    rows.append((m['id'], title[:110], ' '.join(m.get('checks_run', [])), res, first, 'ported' if m.get('ported') else '', first_run, EXTENDED.get(m['id'], '')))
+print('| seed | change | check | first run (commit 4528970) | final | first failed obligation | extended after the seed was seen |')
+print('|------|--------|-------|----------------------------|-------|-------------------------|----------------------------------|')
 for r in rows:
-    print('| %s%s | %s | %s | %s | `%s` |' % (r[0], ' (ported)' if r[5] else '', r[1], r[2], r[3], r[4]))
+    print('| %s%s | %s | %s | %s | %s | `%s` | %s |' % (r[0], ' (ported)' if r[5] else '', r[1], r[2], r[6], r[3], r[4], r[7]))
 n = sum(1 for r in rows if r[3].startswith('caught'))
-print('\n%d of %d seeded changes are caught by the check of the property they break.' % (n, len(rows)))
+n0 = sum(1 for r in rows if r[6] == 'caught')
+ne = sum(1 for r in rows if r[3].startswith('caught') and r[7])
+print('\n%d of %d seeded changes are caught by the check of the property they break (%d of them only after an extension made with the seed in view); '
+      '%d of %d were caught by the machinery as committed at 4528970, before the round-2 results had been looked at.' % (n, len(rows), ne, n0, len(rows)))
